@@ -20,6 +20,8 @@ func init() {
 }
 
 func runC21(w *World, r *Report) {
+	defer c21CachedTokenKeepsExpiry(w, r)
+
 	r.Rule("R-C21-1", "acceptance gates (path-sensitive edge cut): for each guard g in {Decrypt error nil, not expired, not revoked} no consistent path of Unwrap / Validate reaches a success return when g's edges are removed", 6)
 	r.Rule("R-C21-2", "Session.Authenticate: the authenticated-by-cache assignment is unreachable once the edges {cached token not expired, cached value is not a full token, cached token has no expiry} are removed", 1)
 	r.Rule("R-C21-3", "revocation coherence: after a successful insert, tokens.Blacklist passes Purge of every cache class that Session.Authenticate uses as an acceptance shortcut and of the revocation cache; Delete and Flush invalidate the revocation cache", 4)
@@ -529,4 +531,116 @@ func absValueErrSeen(v ssa.Value, f pathFacts, seen map[ssa.Value]bool) byte {
 	}
 
 	return 0
+}
+
+// c21CachedTokenKeepsExpiry: R-C21-5.  A token-cache hit skips the expiry comparison when the cached
+// token has no Expires (an entry vouched for by a remote authority).  What Session.Authenticate
+// itself puts in the cache after validating a token locally must therefore be the validated token
+// (the value TokenUnwrap returned) or a copy that carries its Expires — otherwise the token is
+// accepted from the cache for ever.
+func c21CachedTokenKeepsExpiry(w *World, r *Report) {
+	r.Rule("R-C21-5", "the value Session.Authenticate stores in the token cache after local validation is the token TokenUnwrap returned, or a tokens.Token whose Expires is copied from it", 1)
+
+	rp := w.pkg("internal/router")
+	if rp == nil {
+		return
+	}
+
+	fn := w.ssaFunc(rp, "Session.Authenticate")
+	if fn == nil {
+		r.Anchor("R-C21-5", "router.Session.Authenticate")
+
+		return
+	}
+
+	fromUnwrap := func(v ssa.Value) bool {
+		return derivesFrom(v, func(s ssa.Value) bool {
+			c, _ := resultOf(s)
+			if c == nil {
+				c, _ = s.(*ssa.Call)
+			}
+
+			return c != nil && (strings.HasSuffix(callID(c.Common()), "auth.TokenUnwrap") || strings.HasSuffix(callID(c.Common()), "tokens.Unwrap"))
+		}, nil)
+	}
+
+	n := 0
+
+	allInstrs(fn, func(in ssa.Instruction) {
+		c := callTo(in, "internal/caches.Add")
+		if c == nil || len(c.Args) != 3 {
+			return
+		}
+
+		if k := c40ClassKey(c.Args[0]); !strings.Contains(k, "TokenCache") && k != "" {
+			// class given as a constant: compare with the TokenCache constant
+			tc := lookupConstIntAny(w, "internal/caches", "TokenCache")
+			if kc, isC := constInt(c.Args[0]); !isC || tc == nil || kc != *tc {
+				return
+			}
+		}
+
+		v := c.Args[2]
+		if mi, ok := v.(*ssa.MakeInterface); ok {
+			v = mi.X
+		}
+
+		// only values that are (pointers to) tokens.Token
+		nt := namedOf(v.Type())
+		if nt == nil || nt.Obj().Name() != "Token" {
+			return
+		}
+
+		n++
+
+		key := "router.Session.Authenticate|cached token keeps its expiry"
+		if n > 1 {
+			key += "#" + sprintInt(n)
+		}
+
+		v = resolveLocal(v)
+
+		switch {
+		case fromUnwrap(v):
+			if _, isAlloc := v.(*ssa.Alloc); !isAlloc {
+				r.Discharge("R-C21-5", key, w.pos(in.Pos()), "the validated token itself")
+
+				return
+			}
+
+			fallthrough
+		default:
+			al, isAlloc := v.(*ssa.Alloc)
+			if !isAlloc {
+				r.Violate("R-C21-5", key, w.pos(in.Pos()), "the token put in the cache is not the validated token")
+
+				return
+			}
+
+			hasExpires := false
+
+			for _, ref := range *al.Referrers() {
+				fa, ok := ref.(*ssa.FieldAddr)
+				if !ok || fieldName(fa.X.Type(), fa.Field) != "Expires" {
+					continue
+				}
+
+				for _, r2 := range *fa.Referrers() {
+					if st, ok := r2.(*ssa.Store); ok && fromUnwrap(st.Val) {
+						hasExpires = true
+					}
+				}
+			}
+
+			if hasExpires {
+				r.Discharge("R-C21-5", key, w.pos(in.Pos()), "a copy that carries Expires")
+			} else {
+				r.Violate("R-C21-5", key, w.pos(in.Pos()), "the token put in the cache is a copy without the validated token's Expires: a cache hit on an entry without an expiry skips the expiry comparison, so the token keeps being accepted after it has expired for as long as it is presented")
+			}
+		}
+	})
+
+	if n == 0 {
+		r.Anchor("R-C21-5", "caches.Add(caches.TokenCache, …, *tokens.Token) in Session.Authenticate")
+	}
 }
